@@ -375,11 +375,12 @@ func runCheck(root string, args []string) int {
 	// thorough tier: bounded stand-in for the whole-state ledger statements (C01, C02, C03)
 	if ledFacts := map[string][]string{
 		"C01": {"custody_equals_staked_plus_pending"},
-		"C02": {"custody_equals_staked_plus_pending"},
+		"C02": {"custody_equals_staked_plus_pending", "user_balances_change_only_by_deposits_and_matured_unbondings", "matured_unbondings_are_removed"},
+		"C07": {"slashed_validators_pending_entries_lose_exactly_the_fraction", "other_pending_entries_untouched_by_a_slash", "slash_keeps_the_pending_entries"},
 		"C03": {"delegator_shares_sum_to_validator_total", "validator_shares_sum_to_asset_total", "no_negative_shares", "shares_reset_when_nothing_staked"},
 	}[prop]; ledFacts != nil && tier == "thorough" {
 		runBoundedSuite(root, vd, prop, seed, "ledger", "bounded/zz_bounded_ledger_test.go", "TestBoundedLedger", ledFacts,
-			"12 seeded random histories x 16 steps, 3 users x 3 validators x 2 assets, amounts 1 .. 1e30, slashes 0.01% .. 100%, time jumps past the unbonding period, CompleteUnbondings; independent enumeration of delegations, validators, assets, unbonding queue and the module balance after every step",
+			"12 seeded random histories x 16 steps (same-block steps, minute steps and jumps past the unbonding period), 3 users x 3 validators x 2 assets, amounts 1 .. 1e30, slashes 0.01% .. 100%, CompleteUnbondings, a directed shared-bucket prelude in every fourth history; independent enumeration of delegations, validators, assets, unbonding queue and the module balance after every step",
 			isKnown, &knownHit, &bounded, &violations, &vioLines)
 	}
 	// thorough tier: bounded validation of the composed fixed-point behaviour of positions on the real code (C04, C05, C20)
